@@ -4,9 +4,9 @@ cd /verif
 for d in seeded/C*/; do
   id=$(basename $d | cut -c1-3)
   git -C /repo checkout -- . 2>/dev/null
-  if ! git -C /repo apply /verif/$d/patch.diff 2>/dev/null; then echo "$id APPLY-FAILED"; continue; fi
+  if ! git -C /repo apply /verif/$d/patch.diff 2>/dev/null; then echo "$(basename $d) APPLY-FAILED"; continue; fi
   out=$(python3 check.py $id --tier quick 2>&1 | grep -E "VIOLATION|quick\]" | tr '\n' ' ')
   git -C /repo checkout -- .
-  if echo "$out" | grep -q VIOLATION; then echo "$id caught: $out"; else echo "$id MISSED: $out"; fi
+  if echo "$out" | grep -q VIOLATION; then echo "$(basename $d) caught: $out"; else echo "$(basename $d) MISSED: $out"; fi
 done
 git -C /repo status --short
